@@ -336,13 +336,67 @@ fn all_ids_scenarios() -> Vec<String> {
     out
 }
 
+// ------------------------------------------------------------------ family: oplog (catch-up query over a hand-written log file)
+fn scenario_oplog(sc: &str) -> Result<Violations, String> {
+    // sc = "<t0.t1.t2...>|<since>"   record i has time t_i, db 1 + i % 2, key 10 + (i / 2) % 2, op i % 4
+    use nundb::disk_ops::*;
+    let p: Vec<&str> = sc.split('|').collect();
+    let times: Vec<u64> = p[0].split('.').filter(|x| !x.is_empty()).map(|x| x.parse().unwrap()).collect();
+    let since: u64 = p[1].parse().map_err(|_| "bad since")?;
+    let dir = std::env::var("NUN_DBS_DIR").map_err(|_| "NUN_DBS_DIR not set")?;
+    let _ = std::fs::remove_dir_all(format!("{}/oplog", dir));
+    let mut bytes: Vec<u8> = vec![];
+    let rec = |i: usize| -> (u64, u64, u8) { (1 + (i % 2) as u64, 10 + ((i / 2) % 2) as u64, (i % 4) as u8) };
+    for (i, t) in times.iter().enumerate() {
+        let (db, key, op) = rec(i);
+        bytes.extend_from_slice(&t.to_le_bytes()); bytes.extend_from_slice(&key.to_le_bytes()); bytes.extend_from_slice(&db.to_le_bytes()); bytes.push(op);
+    }
+    std::fs::write(format!("{}/oplog-nun.op", dir), &bytes).map_err(|e| e.to_string())?;
+    let mut v: Violations = vec![];
+    let r = match catch_unwind(AssertUnwindSafe(|| read_operations_since(since))) { Ok(r) => r, Err(_) => { v.push("C10.safety".into()); return Ok(v); } };
+    for (i, t) in times.iter().enumerate() {
+        let (db, key, op) = rec(i);
+        let k = format!("{}_{}", db, key);
+        if *t > since { chk(&mut v, "C12.after", r.contains_key(&k)); }
+        if *t == since { chk(&mut v, "C12.at", r.contains_key(&k)); }
+        let last = !(i + 1..times.len()).any(|j| rec(j).0 == db && rec(j).1 == key);
+        if *t >= since && last {
+            chk(&mut v, "C12.latest", r.get(&k).map_or(false, |o| o.timestamp == *t && o.db == db && o.key == key && o.opp.to_u8() == op));
+        }
+    }
+    let lt = Oplog::last_op_time();
+    chk(&mut v, "C12.last-op-time", lt == times.last().cloned().unwrap_or(0));
+    Ok(v)
+}
+fn all_oplog_scenarios() -> Vec<String> {
+    let mut out = vec![];
+    fn rec(cur: &mut Vec<u64>, depth: usize, out: &mut Vec<String>) {
+        let mut sinces: Vec<u64> = vec![0, 1, 1000];
+        for t in cur.iter() { sinces.push(*t); sinces.push(*t + 1); if *t > 0 { sinces.push(*t - 1); } }
+        sinces.sort(); sinces.dedup();
+        let ts: Vec<String> = cur.iter().map(|t| t.to_string()).collect();
+        for s in sinces { out.push(format!("{}|{}", ts.join("."), s)); }
+        if depth == 0 { return; }
+        let last = cur.last().cloned().unwrap_or(10);
+        for gap in [0u64, 1, 2] { cur.push(last + gap); rec(cur, depth - 1, out); cur.pop(); }
+    }
+    rec(&mut vec![], 6, &mut out);
+    out
+}
+
 fn families() -> Vec<(&'static str, fn() -> Vec<String>, fn(&str) -> Result<Violations, String>)> {
     vec![("store", all_store_scenarios, scenario_store), ("strategy", all_strategy_scenarios, scenario_strategy),
-         ("pending", all_pending_scenarios, scenario_pending), ("ids", all_ids_scenarios, scenario_ids)]
+         ("pending", all_pending_scenarios, scenario_pending), ("ids", all_ids_scenarios, scenario_ids),
+         ("oplog", all_oplog_scenarios, scenario_oplog)]
 }
 
 fn main() {
     std::panic::set_hook(Box::new(|_| {}));
+    if std::env::var("NUN_DBS_DIR").is_err() {
+        let d = format!("/var/tmp/verif-replay-data/{}", std::process::id());
+        std::fs::create_dir_all(&d).unwrap();
+        std::env::set_var("NUN_DBS_DIR", &d);
+    }
     let a: Vec<String> = std::env::args().collect();
     if a.len() < 3 { eprintln!("usage: search <label> | run <label> <family:scenario> | selftest"); std::process::exit(2); }
     let label = a[2].as_str();
